@@ -64,7 +64,7 @@ func init() {
 	(&specSweepCheck{
 		id: "C08",
 		rule: "input-space exploration: every argv of length <= L over {unknown long/short/bundled options with and without attached values, known options, value, command, wrapper command (UnsetOptions), positional, terminator} " +
-			"x 3 unknown modes x 3 single-dash modes (plus 18 configurations in which the command sets another unknown-mode than the root) on a tree root{a,s,m map(1,2),li []int(1,2),help}/c{d}/w(wrapper); error (class and quoted name), warnings written to Writer, remaining and known option values compared with the reference model; " +
+			"x 3 unknown modes x 3 single-dash modes (plus 18 configurations in which the command sets another unknown-mode than the root, and 3 warn-mode configurations in which every Write on Writer fails) on a tree root{a,s,m map(1,2),li []int(1,2),help}/c{d}/w(wrapper); error (class and quoted name), warnings written to Writer, remaining and known option values compared with the reference model; " +
 			"distinct_nontrivial = distinct (definition, argv) cases inside the specified territory",
 		defs: func(string) []*ph.Def {
 			base := func() *ph.Def {
@@ -89,6 +89,13 @@ func init() {
 						d2.Root = root
 						ds = append(ds, &d2)
 					}
+				}
+			}
+			// warn mode with a Writer whose every Write fails: the warning is attempted, nothing else changes
+			for _, d := range configs(base, []bool{false}) {
+				if d.Unknown == 1 {
+					d.WriterFails = true
+					ds = append(ds, d)
 				}
 			}
 			return ds
@@ -124,8 +131,9 @@ func init() {
 			}
 			return ds
 		},
-		alpha:  []string{"--a", "--s", "v", "--so", "--l", "c", "p", "-", "--zz", "--", "-az", "--d"},
-		depthQ: 5, depthT: 6,
+		alpha:    []string{"--a", "--s", "v", "--so", "--l", "c", "p", "-", "--zz", "--", "-az", "--d"},
+		alphaExt: []string{"dep", "deploy", "--force", "-=x", "--=x"}, // the unique beginning of a command name is not the command; dashes followed by `=` name no option
+		depthQ:   5, depthT: 6,
 		facets: ph.AllFacets,
 		extra: func(pc *parserCase, info specInfo) ([]string, []string) {
 			if !info.inDomain || info.ex.Err || info.o.HasErr || len(info.ex.UnspecVals) > 0 {
@@ -180,6 +188,6 @@ func defC09() *ph.Def {
 			{Name: "so", Kind: ph.StrOpt, DefS: "D"},
 			{Name: "l", Kind: ph.StrS, Min: 1, Max: 2},
 		},
-		Cmds: []*ph.CmdDef{{Name: "c", Opts: []ph.OptDef{{Name: "d", Kind: ph.Bool}}}},
+		Cmds: []*ph.CmdDef{{Name: "c", Opts: []ph.OptDef{{Name: "d", Kind: ph.Bool}}}, {Name: "deploy", Opts: []ph.OptDef{{Name: "force", Kind: ph.Bool}}}},
 	}}
 }
